@@ -661,6 +661,13 @@ class Hasher:
                 h.log = list(self.log)
                 return h
             return Native(cp, 'hash.copy')
+        sizes = {'sha256': (32, 64), 'sha512': (64, 128), 'sha1': (20, 64), 'md5': (16, 64)}
+        if a == 'digest_size' and self.algo in sizes:
+            return K(sizes[self.algo][0])
+        if a == 'block_size' and self.algo in sizes:
+            return K(sizes[self.algo][1])
+        if a == 'name':
+            return K(self.algo)
         return None
 
 
@@ -679,7 +686,7 @@ def digest_term(it, algo, log):
             out[-1] = K(out[-1].v + p.v)
         else:
             out.append(p)
-    if any(type(p).__name__ == 'Rope' for p in out):
+    if any(type(p).__name__ == 'Rope' for p in out) or (getattr(it, 'ROPES', False) and len(out) > 1):
         # canonical form when byte layouts are tracked: one rope for the whole hashed stream
         from .rope import Rope
         rs = [Rope.of(it, p) for p in out]
